@@ -119,3 +119,31 @@ Theorem C17_recv_construction_total : forall buf chunks,
   reply_recv_chk udigit uspace buf chunks = Some (reply_recv udigit uspace buf chunks).
 Proof. exact (recv_chk_total udigit uspace udigit_46). Qed.
 Print Assumptions C17_recv_construction_total.
+
+(* The enhanced-status class follows the CURRENT code, however the object was put
+   together.  rops_run applies any list of setter operations (reply.code = ..,
+   reply.message = .., reply.enhanced_status_code = .. / None / False; a refused
+   value raises and changes nothing) to a fresh Reply().  The ESC setter stores what
+   it was given; the getter takes the class from the code at read time.  So after ANY
+   sequence of operations: (1) an ESC, if shown, has the class digit of the code the
+   object has now; (2) if the object has a code 2xx..5xx, its ESC is not switched
+   off (False: the receiving side would show its default ESC) and the texts assigned
+   were valid Unicode, empty or not starting with white space, then writing it with
+   Reply.send and reading it back with Reply.recv -- any segmentation, anything
+   pipelined behind it -- gives the same code and the text the object showed when
+   it was sent (line breaks normalised), consuming exactly its bytes. *)
+Theorem C17_esc_class_follows_code : forall ops,
+  let r := rops_run udigit uspace ops in
+  (forall e, get_esc r = Some e -> hd 0 e = code_class r /\ is245 (code_class r) = true) /\
+  (Forall (rop_ok uspace) ops -> code_2xx_5xx (r_code r) -> r_esc r <> EscFalse ->
+   forall t buf chunks, nonempty_chunks chunks -> buf ++ concat chunks = wire_of r ++ t ->
+   exists r' buf' chunks',
+     reply_recv udigit uspace buf chunks = GotReply r' buf' chunks' /\
+     r_code r' = r_code r /\ get_message r' = norm (get_message r) /\
+     buf' ++ concat chunks' = t /\ nonempty_chunks chunks').
+Proof.
+  intros ops r. split; [intros e; apply ops_esc_class|].
+  intros Hok Hc Hf t buf chunks Hne Hs.
+  exact (ops_roundtrip udigit uspace udigit_46 udigit_48 uspace_32 uspace_10 uspace_13 digit_space_disjoint udigit_245 ops t buf chunks Hok Hc Hf Hne Hs).
+Qed.
+Print Assumptions C17_esc_class_follows_code.
